@@ -25,7 +25,8 @@ RULE = ('generated meshes as for C08 (user amplifiers with full / partial / no s
         'gain mode, EOL zero and non-zero, padding, connector defaults, PSD/PSW policies, per-degree targets) x random '
         'simulation parameters in force (Raman flag/method/order/resolutions, NLI method). Each (input, round) is one '
         'observation. Non-trivial: a design that inserted amplifiers or split fibres and was taken through >=2 rounds. '
-        'Distinct: hash of (configuration, topology).')
+        'Distinct: hash of (configuration, topology).'
+        ' Also point-to-point lines, transceivers attached through a line and amplifier types with automatic output VOA.')
 ASSUMPTIONS = ['numbers compared to the rounding of the export (1e-6), structure (elements, types, models, connections) '
                'exactly; propagated GSNR to 1e-4 dB', 'designs that raise are outside the quantifier']
 REQUIRED_COUNTERS = {'fresh_design_pairs': 40, 'reload_rounds': 80, 'sim_params_checks': 100, 'propagation_comparisons': 30,
@@ -139,7 +140,8 @@ def build_inputs(rng, kind):
         tj = G.gen_p2p(rng, both=True, lumped=rng.random() < 0.2, long_fibers=rng.random() < 0.3)
     else:
         tj, _ = G.gen_topology(rng, max_sites=4, max_spans=3, long_fibers=(kind == 'long'), per_degree=rng.random() < 0.4,
-                               per_freq_loss=rng.random() < 0.3, lumped=rng.random() < 0.2, max_km=140)
+                               per_freq_loss=rng.random() < 0.3, lumped=rng.random() < 0.2, max_km=140,
+                               chassis=rng.random() < 0.2)
     return ej, tj, rand_sim(rng, raman_net), raman_net
 
 
